@@ -175,7 +175,8 @@ Record guard_shape := {
   g_cache_rebuild : cache_rebuild_shape;
   g_fold : fold_shape;
   g_rebuild : rebuild_shape;
-  g_static_max : list (string * bool * N)         (* level_filters.rs: (feature, consulted only in release builds?, level rank), in source order *)
+  g_static_max : list (string * bool * N);        (* level_filters.rs: (feature, consulted only without debug assertions?, level rank), in source order *)
+  g_static_release_falls_through : bool           (* does a build without debug assertions that matches no release row continue with the max_level_* rows? *)
 }.
 
 (** The interest byte: what set_interest writes and what interest() / register() read back. *)
@@ -215,11 +216,29 @@ Definition interp_max_step (sh : rebuild_shape) (conf : N -> collector) (m : lev
   | RebuildUnknown => None
   end.
 
-(** STATIC_MAX_LEVEL of a build, from the feature table: the first listed feature that is on wins; release-only
-    rows are consulted only when debug assertions are off; no row = TRACE. *)
-Fixpoint static_max_of (tbl : list (string * bool * N)) (release : bool) (on : string -> bool) : N :=
+(** STATIC_MAX_LEVEL of a build, from the feature table as read: among the rows of the build's profile ([rel_only] =
+    "no debug assertions") the first listed feature that is on wins; a build without debug assertions that matches no
+    release row gets TRACE, or — if the source falls through — what the max_level_* rows give; no row at all = TRACE. *)
+Fixpoint first_row (tbl : list (string * bool * N)) (rel : bool) (on : string -> bool) : option N :=
   match tbl with
-  | [] => 5
-  | (f, rel_only, lvl) :: r =>
-      if Bool.eqb rel_only release && on f then lvl else static_max_of r release on
+  | [] => None
+  | (f, rel_only, lvl) :: r => if Bool.eqb rel_only rel && on f then Some lvl else first_row r rel on
   end.
+Definition static_max_of (tbl : list (string * bool * N)) (falls_through release : bool) (on : string -> bool) : N :=
+  match first_row tbl release on with
+  | Some l => l
+  | None => if release && falls_through then match first_row tbl false on with Some l => l | None => 5 end else 5
+  end.
+
+(** What the feature NAMES configure, independently of the source: in a build without debug assertions the
+    `release_max_level_<name>` features, otherwise the `max_level_<name>` features; the most restrictive selected one
+    wins; [None] = this profile's family selects nothing (then the level is whatever the source's default is). *)
+Definition level_names : list (string * N) :=
+  [("off", 0); ("error", 1); ("warn", 2); ("info", 3); ("debug", 4); ("trace", 5)]%string.
+Fixpoint first_named (prefix : string) (names : list (string * N)) (on : string -> bool) : option N :=
+  match names with
+  | [] => None
+  | (n, lvl) :: r => if on (prefix ++ n)%string then Some lvl else first_named prefix r on
+  end.
+Definition configured_cap (release : bool) (on : string -> bool) : option N :=
+  first_named (if release then "release_max_level_" else "max_level_")%string level_names on.
